@@ -73,7 +73,7 @@ class MapCfg(object):
             return ['replace']
         o = ['replace', 'add']
         if self.kind == 'wide':
-            return ['replace', 'or', 'and']
+            return ['replace', 'or', 'and', 'add']
         if self.is_int and self.zero_sentinel():
             o += ['or', 'and']
         return o
